@@ -218,7 +218,8 @@ def run_rel(rec, rng, cell, rel, decls, expect_mismatch, seams):
     seams.reset()
     seams.min_stub = lambda call: OptimizeResult(x=np.array(call["x0"], dtype=float), success=False, status=9, message="stubbed", fun=0.0, nit=0)
     try:
-        P.solve(method="SLSQP")
+        # start (and, with the stub, end) at a regular point: the post-solve feasibility loop evaluates there
+        P.solve(method="SLSQP", x0=B.point_array(V, pts[0][0]))
     except Exception as ex:
         bad("solve-with-constraints-raises:" + type(ex).__name__, error=repr(ex)[:300])
         return
